@@ -569,6 +569,13 @@ pub fn erroneous_projects() -> Vec<Project> {
         ("not-satisfied-dyn", "Lib::need(as_dyn())", false),
         ("satisfied-through-mains-own-bound", "through(1)", true),
         ("not-satisfied-through-an-unbounded-caller", "unbounded(1)", false),
+        // the bound of a type parameter of a method of a library type
+        ("method-dot-satisfied", "Lib::mk().with(1)", true),
+        ("method-dot-not-satisfied", "Lib::mk().with(true)", false),
+        ("method-path-satisfied", "Lib::Sb::with(Lib::mk(), 1)", true),
+        ("method-path-not-satisfied", "Lib::Sb::with(Lib::mk(), Other { k: 2 })", false),
+        ("method-of-a-generic-impl-not-satisfied", "Lib::Bx::describe(Lib::bx(), true)", false),
+        ("method-of-a-generic-impl-satisfied-by-an-impl-in-main", "Lib::Bx::describe(Lib::bx(), Mine { k: 2 })", true),
     ] {
         out.push(Project {
             name: format!("bound-across-packages-{}", which),
@@ -581,7 +588,7 @@ pub fn erroneous_projects() -> Vec<Project> {
                         call
                     ),
                 ),
-                ("Lib/lib.gom".into(), "package Lib\n\ntrait Tr { fn m(Self) -> string; }\nimpl Tr for int32 { fn m(self: int32) -> string { \"int\" } }\nfn need[U: Tr](u: U) -> string { Tr::m(u) }\n".into()),
+                ("Lib/lib.gom".into(), "package Lib\n\ntrait Tr { fn m(Self) -> string; }\nimpl Tr for int32 { fn m(self: int32) -> string { \"int\" } }\nfn need[U: Tr](u: U) -> string { Tr::m(u) }\nstruct Sb { a: int32 }\nstruct Bx[T] { v: T }\nfn mk() -> Sb { Sb { a: 1 } }\nfn bx() -> Bx[bool] { Bx { v: true } }\nimpl Sb { fn with[W: Tr](self: Sb, w: W) -> string { Tr::m(w) } }\nimpl[T] Bx[T] { fn describe[W: Tr](self: Bx[T], w: W) -> string { Tr::m(w) } }\n".into()),
             ],
             expected_stdout: if ok { Some(if which.contains("in-main") { "mine\n".into() } else { "int\n".into() }) } else { None },
         });
